@@ -243,3 +243,16 @@ M("C09", "find-in-tree-unguarded", TB, '    if hasattr(o, "gengy_types_this_way"
 M("C09", "listsize-mutate-in-place", MHL, "current_node_cpy: list = copy.copy(list(current_node.gengy_init_values))", "current_node_cpy: list = current_node.gengy_init_values", "C09.R1")
 M("C09", "twin-ge-clone-list", GE, "        clone = [i for i in genotype.dna]\n", "        clone = list(genotype.dna)\n", "", expect="silent")
 M("C09", "twin-sge-copy-per-key", SGE, "        dna = deepcopy(genotype.dna)\n        dna[rkey][rindex]", "        dna = {k: list(v) for k, v in genotype.dna.items()}\n        dna[rkey][rindex]", "", expect="silent")
+
+# ------------------------------------------------------------------------------------- C07
+M("C07", "ge-metahandlers-from-decider-stream", GE, "        rand: RandomSource = ListWrapper(genotype.dna)\n", "        rand: RandomSource = self.decider.random\n", "C07.R1")
+M("C07", "stack-new-native-source", STK, "return create_tree_using_stacks(self.grammar, ListWrapper(genotype.dna), failures_limit=self.failures_limit)",
+  "return create_tree_using_stacks(self.grammar, NativeRandomSource(len(genotype.dna)), failures_limit=self.failures_limit)", "C07.R1",
+  extra=[(STK, "from geneticengine.random.sources import RandomSource\n", "from geneticengine.random.sources import NativeRandomSource, RandomSource\n")])
+M("C07", "dsge-float-from-shared-stream", DSGE, "        v = self.read(float)\n        return v % (max_float - min_float) + min_float", "        return self.genotype.random.random_float(min_float, max_float)", "C07.R1")
+M("C07", "list-size-from-context-random", INI, "        length = decider.random_int(0, 10)\n", "        length = global_context.random.randint(0, 10)\n", "C07.R1")
+M("C07", "ge-mapping-caches-on-representation", GE, "        rand: RandomSource = ListWrapper(genotype.dna)\n", "        rand: RandomSource = ListWrapper(genotype.dna)\n        self.gene_length = len(genotype.dna)\n", "C07.R2")
+M("C07", "sge-mapping-writes-genotype", SGE, "        rand: RandomSource = StructuredListWrapper(genotype.dna)\n", "        rand: RandomSource = StructuredListWrapper(genotype.dna)\n        genotype.dna[INFRASTRUCTURE_KEY] = list(genotype.dna[INFRASTRUCTURE_KEY])\n", "C07.R2")
+M("C07", "twin-rename-source", GE, "        rand: RandomSource = ListWrapper(genotype.dna)\n        return random_node(rand,", "        source: RandomSource = ListWrapper(genotype.dna)\n        return random_node(source,", "", expect="silent")
+M("C07", "twin-stack-local-wrapper", STK, "return create_tree_using_stacks(self.grammar, ListWrapper(genotype.dna), failures_limit=self.failures_limit)",
+  "wrapper = ListWrapper(genotype.dna)\n        return create_tree_using_stacks(self.grammar, wrapper, failures_limit=self.failures_limit)", "", expect="silent")
